@@ -79,7 +79,7 @@ static std::vector<CheckDef> g_checks = {
           "key data, restarts, 8 runs with a message longer than 2^32 bytes; oracle = one-shot call of the same family; distinct_nontrivial: distinct (family, key size, direction, "
           "carried partial length, fragment residue, fragment class, nt, in-place) cells",
           { "the one-shot call of the same family is the oracle, not an object under test (that would be C02)" } },
-        { "C08", "exploration", { { "hashmgr", 3 }, { "stream", 4 }, { "oneshot", 4 }, { "l2mgr", 2 }, { "streamhuge", -12 }, { "hashedge", -28 } }, 40000, 4000000, 50, 900, false, false,
+        { "C08", "exploration", { { "hashmgr", 3 }, { "stream", 4 }, { "oneshot", 4 }, { "l2mgr", 2 }, { "streamhuge", -12 }, { "hashedge", -28 }, { "cbchuge", -3 } }, 40000, 4000000, 50, 900, false, false,
           "cases: mixed batch of all workloads (hash managers, streaming objects, one-shot AES client, 12 huge stream cases) with every buffer placed end-flush, "
           "start-flush or mid-slot in a guard-paged arena (seeded), canaries around every range, checksums of every input/constant object; "
           "only the memory-map monitor decides; distinct_nontrivial: distinct workload states reached (union of the HashMgrSim, StreamSim "
@@ -107,7 +107,7 @@ static std::vector<CheckDef> g_checks = {
           { "exit paths are reached through the workloads' histories and length classes, not enumerated from the source",
             "a second pass runs the FIPS gate enumeration of the FIPS_MODE archive through the same trampoline (gated wrappers and the status helper)" },
           { { "fipsgate", 1 } }, 8000, 400000 },
-        { "C20", "exploration", { { "hashmgr", 3 }, { "stream", 4 }, { "oneshot", 3 }, { "l2mgr", 2 }, { "streamhuge", 0, 8 } }, 24000, 2400000, 50, 900, true, false,
+        { "C20", "exploration", { { "hashmgr", 3 }, { "stream", 4 }, { "oneshot", 3 }, { "l2mgr", 2 }, { "streamhuge", 0, 8 }, { "cbchuge", -3, 16 } }, 24000, 2400000, 50, 900, true, false,
           "cases: every plan of the mixed batch is executed twice with different hidden seeds (output prefill, uninitialised object memory, bytes "
           "beyond len, caller-saved/vector/mask registers, flags, 64 KiB dead stack) and identical schedule/transport/fault streams and "
           "addresses; the two observable histories must be identical; distinct_nontrivial: distinct workload states (as C08)",
@@ -238,6 +238,8 @@ static Sim *get_sim(const std::string &n)
                 s = make_gcmhuge_sim();
         else if (n == "oneshot")
                 s = make_oneshot_sim();
+        else if (n == "cbchuge")
+                s = make_cbchuge_sim();
         else if (n == "dispatch")
                 s = make_dispatch_sim();
         else if (n == "fipsgate")
@@ -280,7 +282,7 @@ static void exec_plan(Sim *sim, const Plan &p, uint64_t hidden_seed, RunResult &
         // fault "asynchronous signal": in 1 run of 128 every library call is hit by one simulated signal (not in the coroutine sims,
         // whose tasks call the library directly)
         if ((mix64(p.seed, hash_str("signal-fault")) & 0x7f) == 0 && p.sim != "fipsrace" && p.sim != "shared" && p.sim != "dispatch" && p.sim != "hashlong" && p.sim != "hashgiant" &&
-            p.sim != "hashendure" && p.sim != "streamhuge" && p.sim != "gcmhuge")
+            p.sim != "hashendure" && p.sim != "streamhuge" && p.sim != "gcmhuge" && p.sim != "cbchuge")
                 e.signal_faults = true;
         if (g_fips_build && p.sim != "fipsgate" && p.sim != "fipsrace")
                 fips_mark_self_tests_passed(p.sim == "shared" && (p.seed & 2)); // (half of the shared-state runs start with the self-tests not yet run)
